@@ -556,34 +556,51 @@ func c6FrontEnds(c *Ctx, lv map[string]int64) {
 			continue
 		}
 		if m == "Println" {
-			// may be skipped only by the (R5.2-legal) pre-check: every return not dominated by the call has v.level < DPanic in its path
+			// may be skipped only by the (R5.2-legal) pre-check - decided on the paths of the method, the printer's level
+			// fixed to each value in turn and both answers of the enabler followed: from DPanic up every path prints,
+			// below it every path on which the enabler said yes does
 			okAll := true
 			var cex []string
-			for _, r := range Returns(fn) {
-				dnf := PathConds(r.Block())
-				for _, conj := range dnf {
-					passes := false
-					for _, a := range conj {
-						if a == "v.level < "+lim {
-							passes = true
+			rcv := PN(fn.Params[0])
+			for L := lv["Debug"] - 1; L <= lv["Fatal"]+1 && okAll; L++ {
+				L := L
+				seqs, trunc := ConcPaths(fn, ConcCfg{
+					MaxDepth: 4,
+					Conc: func(d string) (int64, bool) {
+						if d == rcv+".level" {
+							return L, true
 						}
-					}
-					// a path is fine if it contains the call
-					if !passes && ExistsPath(fn, nil, func(i ssa.Instruction) bool { return i == ssa.Instruction(r) }, func(i ssa.Instruction) bool { return i == hit }) {
-						// there is some path to r avoiding the call; it must be one of the disjuncts with v.level < DPanic
-						okAll = false
-						cex = conj
-					}
-				}
-			}
-			// refine: compute directly
-			skip := WitnessPath(fn, nil, IsReturn, func(i ssa.Instruction) bool { return i == hit })
-			if skip != nil {
-				// all ways to skip must carry v.level < DPanic: the If deciding the skip is in a block guarded by it
-				okAll = true
-				iff, _, _ := BranchOn(fn, "Enabled(v.enab, v.level)")
-				if iff == nil || !HasAtom(Guards(iff), func(s string) bool { return s == "v.level < "+lim }) {
+						return 0, false
+					},
+					Fork: func(in ssa.Instruction, st *ConcState) []ConcAlt {
+						cl, isCall := in.(*ssa.Call)
+						if !isCall || !cl.Call.IsInvoke() || cl.Call.Method.Name() != "Enabled" {
+							return nil
+						}
+						return []ConcAlt{{Ev: "enabled", Ints: map[ssa.Value]int64{cl: 1}}, {Ev: "disabled", Ints: map[ssa.Value]int64{cl: 0}}}
+					},
+					Event: func(in ssa.Instruction, st *ConcState) string {
+						if in == hit {
+							return "print"
+						}
+						return ""
+					},
+				})
+				if trunc || len(seqs) == 0 {
 					okAll = false
+					cex = []string{"paths not enumerable at level " + itoa(int(L))}
+					break
+				}
+				for _, sq := range seqs {
+					printed, disabled := false, false
+					for _, e := range strings.Split(sq, " ; ") {
+						printed = printed || e == "print"
+						disabled = disabled || e == "disabled"
+					}
+					if !printed && (L >= lv["DPanic"] || !disabled) {
+						okAll = false
+						cex = []string{"level=" + itoa(int(L)), sq}
+					}
 				}
 			}
 			c.Check(okAll, "R6.2", FStr(fn), "routes", hit.Pos(), "v.print may be skipped only for levels below DPanic (counter-example %v)", cex)
